@@ -4,5 +4,5 @@ From MiV Require Import Model.Arith Model.Page Model.Walk.
 Extraction Language OCaml.
 Cd "extracted".
 Separate Extraction
-  Walk.walk_stop_at Walk.all_calls Walk.live_calls Walk.area_call.
+  Walk.walk_stop_at Walk.pages_after_stop_at Walk.all_calls Walk.live_calls Walk.area_call.
 Cd "..".
